@@ -10,6 +10,11 @@
 // a shard between them, where that shard does not exist / exists but does not know the field (nil cursor) / knows the
 // field through another series of the same measurement (non-nil, immediately empty cursor).
 //
+// A fourth family ("V": field values) reads the three-shard-group layout with predicates that compare the FIELD VALUE
+// (`_value > 80`, alone and AND/OR-ed with tag comparisons) over datasets in which every point is low or high, for every
+// low/high assignment to the six time slots: a point must be returned iff the predicate, evaluated as a Boolean
+// expression over its series' tags and its OWN value, is true.
+//
 // What the oracle demands (and nothing more than the statement says):
 //   - filter: every series (measurement, tag set, field) that matches the predicate and has ≥ 1 stored point in
 //     [start,end) is returned exactly once, with exactly those points, strictly ascending in time, with the stored
@@ -1733,13 +1738,16 @@ func TestCheck(t *testing.T) {
 			"Family C (shard-group presence patterns): G 1h shard groups (quick 3; thorough 3 and 4), two slots per group (first and last nanosecond of the group: adjacent nanoseconds across every boundary); a dataset assigns every pool series a subset of the G groups in which it is present (both slots), field layout fixed per series (m0{a=x}: f0+f1; m0{a=y,b=z}: f0; m1{a=x,b=z}: f1; m1{b=w}: f0+f1), so a group skipped by a series is, for that series, a missing shard (nobody wrote there) / a shard that does not know the field or the measurement (nil cursor) / a shard that knows the field through the other series of the measurement (non-nil, immediately empty cursor; float in m0, integer in m1); this includes present-absent-present, absent-present-absent, absent-absent-present, … for every series. " +
 			"'mirror' = every pair (a,b) of group subsets, not both empty: the two-field series m0{a=x}, m1{b=w} present in a, the one-field series m0{a=y,b=z}, m1{a=x,b=z} present in b ((2^G)^2-1 vectors), plus, where a∪b leaves a group unwritten before a written one, m0 with (a,b) and m1{a=x,b=z} alone in every group (24 / 135 vectors for G = 3 / 4); 'wide' = mirror ∪ every vector of four subsets in which m0{a=y,b=z} or m1{b=w} is absent everywhere. quick: mirror over 3 groups, layout mixed = 87 datasets; thorough: wide over 3 groups, layout mixed (1008) + mirror over 3 groups × layouts cache,tsm2,overwrite (261) + mirror over 4 groups, layout mixed (390) = 1659 datasets. " +
 			"Requests per family-C dataset: cut points MinInt64, one cut inside every group (first slot+1, i.e. between the two points of the group), MaxInt64 (thorough: + every group boundary + the last nanosecond of every group); ReadFilter for every range [s,e) over the cuts (quick 10; thorough 45 / 78 for 3 / 4 groups) × predicates {none, a=x, _field=f0, a!=x} (thorough + _field=f1); ReadGroup for group-by [a], group-by [_measurement,_field], group none (thorough + group-by []) × all 8 aggregate settings × ranges {full, inside first group → inside last group, inside first group → MaxInt64} (thorough + 2) × predicate none (thorough: + a=x without aggregate). quick = 112 requests per C dataset, thorough = 405 / 570 (3 / 4 groups). The read API has no order parameter: all reads iterate the shards in ascending time order, except ReadGroup with aggregate last, which the store serves with descending cursors (shards in reverse order; the skipped-shard patterns are thereby also met from the other side). " +
-			"Visiting order: family A, then families B and C in alternating blocks of 16 datasets, each family simplest-first. " +
+			"Family V (field values): 3 shard groups, slot geometry and field layout of family C; every point is low (s*10+k, +0.5 for the float field: 0…37.5) or high (+100); a dataset = presence vector × value mask over the 6 slots (bit k: slot k is high for the even pool series and low for the odd ones) — ALL 64 masks, so `_value > 80` / `_value < 80` holds for none/some/all points of each shard independently; quick: every series in every group, layout mixed = 64 datasets; thorough: presence {full, staggered (m0{a=x}: groups 0,1; m0{a=y,b=z}: 1,2; m1{a=x,b=z}: 0,1,2; m1{b=w}: 0,2)} × layouts mixed, overwrite (old value of the opposite class) + full × cache, tsm2 = 384 datasets. " +
+			"Requests per V dataset: ReadFilter for every range over the cuts MinInt64, inside each group, MaxInt64 (10; thorough + boundary of groups 0/1 = 15) × value predicates (quick 13: _value>80, _value<80, tag OR value ×6 incl. swapped operands and _field/_measurement atoms, tag AND value ×3, (a=x AND v) OR b=w, (a=y OR v) AND _measurement=m0; thorough 199: every atom of {a=x,a=y,b=z,b=w,_measurement=m0/m1,_field=f0/f1,a!=x} AND/OR every value atom of {>80,<80,>=80,<=80,=100.5,!=100.5,=110 (integer literal),>80 (integer literal)}, swapped operand order for >80/<80); ReadGroup group-by [a], [_measurement,_field], group none × aggregates {none,count,sum,min,last} (thorough all 8) × 2 ranges × 3 (thorough 7) value predicates. Reference: a point is returned iff the predicate evaluated over (tags of its series, its own value) is true; aggregates over exactly those points. " +
+			"Visiting order: family A, then families B, C and V in alternating blocks of 16 datasets, each family simplest-first. " +
 			"Oracle: reference model of the written points (see file header). non-trivial = requests for which the model expects ≥1 series with points (distinct by construction).",
 		Assumptions: []string{
 			"series returned with an empty/nil cursor are not judged (except that they must be stored series that are not excluded by the predicate)",
 			"`tag != v` on a series lacking the tag is three-valued: the series may or may not be returned",
 			"order of series inside a filter result / inside a group is not judged (the statement orders points and groups only); a missing group-key value may sort first or last, consistently",
 			"aggregate results are judged by value only (count/sum/min/max/first/last/mean of exactly the model points in range); their time stamps are not judged",
+			"field-value predicates (family V): `_value <op> literal` is a condition on the individual point, AND/OR combine it with tag conditions as Boolean operators, so `tag = v OR _value > x` returns ALL points of a series that has the tag value and, of the other series, the points whose own value satisfies the comparison; numeric comparison is by mathematical value for float/integer fields and float/integer literals; a series none of whose points qualifies may still be listed with an empty cursor",
 			"an error returned by a read on these valid inputs is reported as a violation (class 'error')",
 			"background compaction/retention are off (mini fixture); shard groups are 1h (the minimum the meta client allows); one shard per shard group, created on demand by the first write into the group",
 		},
